@@ -269,12 +269,14 @@ def main():
     for v in byfile.values():
         rnd.shuffle(v)
     done = set()
-    try:
-        for l in open(os.path.join(OUT, "results.jsonl")):
-            r = json.loads(l)
-            done.add((r["file"], r["line"] - 1, r["op"], r["k"]))
-    except Exception:
-        pass
+    for fn in os.listdir(OUT):
+        if fn.startswith("results") and fn.endswith(".jsonl"):
+            try:
+                for l in open(os.path.join(OUT, fn)):
+                    r = json.loads(l)
+                    done.add((r["file"], r["line"] - 1, r["op"], r["k"]))
+            except Exception:
+                pass
     picked = []
     files = sorted(byfile)
     i = 0
